@@ -44,6 +44,10 @@ pub struct StreamCase {
     /// Drain after every `every`-th call.
     pub every: u8,
     pub how: DrainHow,
+    /// When not zero, `arena().ensure_capacity(hint)` is called on the codec's arena before every
+    /// feeding call (a caller that keeps hinting how much it is about to write).
+    #[serde(default)]
+    pub hint: u32,
 }
 
 pub fn stream_case(min_kib: u32, max_kib: u32) -> impl Strategy<Value = StreamCase> {
@@ -60,8 +64,9 @@ pub fn stream_case(min_kib: u32, max_kib: u32) -> impl Strategy<Value = StreamCa
             2 => (1u8..=255).prop_map(DrainHow::BytesFrac),
             1 => (1u8..6).prop_map(DrainHow::Slices),
         ],
+        prop_oneof![6 => Just(0u32), 1 => 1u32..300, 1 => Just(2048u32), 1 => Just(4096u32), 1 => 60_000u32..70_000],
     )
-        .prop_map(|(kind, shape, kib, plan_seed, max_piece, every, how)| StreamCase {
+        .prop_map(|(kind, shape, kib, plan_seed, max_piece, every, how, hint)| StreamCase {
             kind,
             shape,
             kib,
@@ -69,6 +74,7 @@ pub fn stream_case(min_kib: u32, max_kib: u32) -> impl Strategy<Value = StreamCa
             max_piece,
             every,
             how,
+            hint,
         })
 }
 
@@ -290,6 +296,9 @@ fn encode_stream<'a>(
         let end = (pos + size).min(plain.len());
         let piece = &plain[pos..end];
         stats.largest_piece = stats.largest_piece.max(piece.len());
+        if case.hint > 0 {
+            encoder.consumer().arena().ensure_capacity(case.hint as usize);
+        }
         match how {
             How::Borrow => encoder.encode(piece),
             How::Copy => encoder.encode_copy(piece),
@@ -347,6 +356,7 @@ struct DecodeSink<'a> {
     every: usize,
     how: DrainHow,
     calls: usize,
+    hint: u32,
 }
 
 impl<'a> DecodeSink<'a> {
@@ -357,6 +367,9 @@ impl<'a> DecodeSink<'a> {
             let (size, how) = self.plan.next();
             let end = (pos + size).min(piece.len());
             let part = &piece[pos..end];
+            if self.hint > 0 {
+                self.decoder.consumer().arena().ensure_capacity(self.hint as usize);
+            }
             let r = match how {
                 How::Borrow | How::Copy => self.decoder.decode_copy(part).map_err(|e| e.to_string()),
                 How::Anchored => {
@@ -428,6 +441,9 @@ pub fn run_stream(case: &StreamCase, plain: &[u8]) -> Result<StreamStats, Fail> 
                 let end = (pos + size).min(encoded.len());
                 let part = &encoded[pos..end];
                 stats.largest_piece = stats.largest_piece.max(part.len());
+                if case.hint > 0 {
+                    decoder.consumer().arena().ensure_capacity(case.hint as usize);
+                }
                 let r = match how {
                     How::Borrow => decoder.decode(part).map_err(|e| e.to_string()),
                     How::Copy => decoder.decode_copy(part).map_err(|e| e.to_string()),
@@ -481,6 +497,7 @@ pub fn run_stream(case: &StreamCase, plain: &[u8]) -> Result<StreamStats, Fail> 
                 every: case.every as usize,
                 how: case.how,
                 calls: 0,
+                hint: case.hint,
             };
             let mut sub = StreamStats::default();
             let output = {
